@@ -59,8 +59,9 @@ def tasks_for(pid, tier, seed):
                           what="DataWorld::new over %d archetypes x %d components, every explicit id a symbolic Option<u8>%s" % (k, c, ", cfg flags symbolic" if arch_cfg or comp_cfg else "")))
         ids(2, 2, True, False, "2x2+archcfg")
         ids(1, 4, False, False, "1x4 (one scope, 4 items)")
-        ids(3, 1, False, True, "3x1+compcfg")
+        ids(2, 2, False, True, "2x2+compcfg")
         if T:
+            ids(3, 1, False, True, "3x1+compcfg")
             ids(3, 2, True, False, "3x2+archcfg")
             ids(1, 6, False, False, "1x6 (one scope, 6 items)")
             ids(4, 1, True, False, "4x1+archcfg")
